@@ -2,7 +2,10 @@
 
 Every rule decides on *values*: a generator body is executed symbolically for one configuration of the solver object and one kind of send
 (verifier/c08_gen.py), array accesses are references (array, partition, column) however the source reaches them, the state that survives from
-one send to the next is found by def-use (whatever the locals are called), and the expected side is the batch loop body / a formula."""
+one send to the next is found by def-use (whatever the locals are called, whether it lives in locals, a tuple, a dict, a namespace or a small
+record class), and the expected side is one generic time step of the batch solver evaluated by the same engine (verifier/c08_batch.py) / a formula.
+A value the engine cannot lower, a call whose effects on the arrays it cannot follow, a state structure it cannot place: ANALYSIS-ERROR, never a
+verdict; a store that is provably absent or provably different: VIOLATION."""
 from __future__ import annotations
 
 import ast
@@ -19,8 +22,8 @@ from .e2_eval import Unknown, is_unknown, need
 UNC, SE2, BASE = O.UNC, O.SE2, O.BASE
 CDF = "pyyeti/ode/solvecdf.py"
 
-D0, V0, F0, F1 = F.sym("d0"), F.sym("v0"), F.sym("f0"), F.sym("f1")
-F1RF, F0RB, F1RB = F.sym("f1rf"), F.sym("f0rb"), F.sym("f1rb")
+D0, V0, F0, F1 = F.sym("@d0"), F.sym("@v0"), F.sym("@f0"), F.sym("@f1")
+F1RF, F0RB, F1RB = F.sym("@f1rf"), F.sym("@f0rb"), F.sym("@f1rb")
 COEF = {c: F.sym(c) for c in ("F", "G", "A", "B", "Fp", "Gp", "Ap", "Bp")}
 BO, ALPHA, IKRF = F.sym("bo"), F.sym("alpha"), F.sym("ikrf")
 STALE = F.sym("stale_cache")
@@ -30,8 +33,8 @@ _PC = ("F", "G", "A", "B", "Fp", "Gp", "Ap", "Bp", "alpha", "Fe", "Ae", "Be", "u
 _SELF = ("bo", "ikrf", "invm", "imrb", "P", "Q", "E_dd", "E_dv", "E_vd", "E_vv", "m", "b", "k")
 
 # canonical names of the array references the rules talk about: (array, partition, column) -> symbol
-REFNAME = {("d", "k", "prev"): "d0", ("v", "k", "prev"): "v0", ("force", "k", "prev"): "f0", ("f1", "k", "all"): "f1", ("f1", "rf", "all"): "f1rf",
-           ("f1", "rb", "all"): "f1rb", ("force", "rb", "prev"): "f0rb", ("d", "rb", "prev"): "drb0", ("v", "rb", "prev"): "vrb0"}
+REFNAME = {("d", "k", "prev"): "@d0", ("v", "k", "prev"): "@v0", ("force", "k", "prev"): "@f0", ("f1", "k", "all"): "@f1", ("f1", "rf", "all"): "@f1rf",
+           ("f1", "rb", "all"): "@f1rb", ("force", "rb", "prev"): "@f0rb", ("d", "rb", "prev"): "@drb0", ("v", "rb", "prev"): "@vrb0"}
 
 
 def refsym(arr, rn, cn):
@@ -134,6 +137,7 @@ class Arm:
     def __init__(self, ev, canon):
         self.ev, self.canon, self.loop = ev, canon, ev.loop
         self.lev = ev.loop_ev or ev          # the evaluator that ran the receiving loop (a `yield from` sub-generator, or ev itself)
+        self.crashes = list(ev.facts.crashes)  # names read on this path that nothing has bound
         self.cells, self.pre_cells = [], []
         for c in ev.gcells:
             key = canon.classify(c["root"], c["rows"], c["col"]) if c["root"] is not None else (None, None, None)
@@ -202,10 +206,11 @@ def array_shapes(env, fn, mode):
 NT = F.sym("@nt")
 
 
-def run_arm(ctx, kind, cfg, which, carry=None, generic=(), generic_prefix=None, sided=False, two_steps=False):
-    """evaluate generator `kind` for the configuration and the kind of send; memoised per run"""
+def run_arm(ctx, kind, cfg, which, carry=None, generic=(), generic_prefix=None, sided=False, two_steps=False, jw=None):
+    """evaluate generator `kind` for the configuration and the kind of send; memoised per run.  jw: a world for the sent index of a positive
+    send - 1: the first step is sent (j = 1), 2: a later one (j >= 2) - for tests the documented domain j >= 1 alone does not decide"""
     key = (kind, tuple(sorted((k, str(v)) for k, v in cfg.items())), which, tuple(sorted((k, repr(v)) for k, v in (carry or {}).items())),
-           tuple(sorted(generic)), generic_prefix, sided, two_steps)
+           tuple(sorted(generic)), generic_prefix, sided, two_steps, jw)
     cache = ctx.__dict__.setdefault("_c08_arms", {})
     if key in cache:
         r = cache[key]
@@ -222,6 +227,10 @@ def run_arm(ctx, kind, cfg, which, carry=None, generic=(), generic_prefix=None, 
         # a message can only be sent when there are at least two time steps: columns of the time histories
         facts.ge2 = [NT]
         facts.ge2_exact = two_steps
+        if jw == 1 and which_ == "pos":
+            facts.pin = {"j": F.const(1)}
+        elif jw == 2 and which_ == "pos":
+            facts.ge2 = [NT, J]
         canon = Canon(fn, cfg, mode, which_)
         ev = GenEval(ctx, fn, env=env, facts=facts, inline=_inline(ctx, kind), refhook=canon, carry=carry_, sided=sided,
                      shapes=array_shapes(env, fn, mode), heap_carried=heap_carried)
@@ -347,8 +356,23 @@ def carried_roles(arms):
     return roles
 
 
+def _undecided(arm):
+    """stored / carried values of the iteration that are unknown because a test was not decided"""
+    vals = [c["value"] for c in arm.cells] + [arm.final(k) for k in arm.carried]
+    return [v for v in vals if is_unknown(v) and "undecided" in v.why]
+
+
 def _generic_arms(ctx, kind, cfg):
-    return [run_arm(ctx, kind, cfg, w, generic_prefix="carry:") for w in ("pos", "addon")]
+    try:
+        arms = [run_arm(ctx, kind, cfg, w, generic_prefix="carry:") for w in ("pos", "addon")]
+        if not _undecided(arms[0]):
+            return arms
+    except Unsupported as e:
+        if "undecided test" not in str(e):
+            raise
+    # a test the domain j >= 1 does not decide (a tag that never changes compared with j - 1 ...): the first send and the later ones apart
+    later = [run_arm(ctx, kind, cfg, w, generic_prefix="carry:", jw=2) for w in ("pos", "addon")]
+    return later + [run_arm(ctx, kind, cfg, "pos", generic_prefix="carry:", jw=1)]
 
 
 def _find_state(ctx, kind, cfg):
@@ -360,13 +384,23 @@ def _find_state(ctx, kind, cfg):
         raise Unsupported(f"more than one carried value decides a branch: {sorted(tags)}")
     if tags:
         valid = run_arm(ctx, kind, cfg, "pos", carry={tags[0]: J - 1})
-        first = [c for c, r in roles.items() if r == {"index"}]
+        first = [c for c, r in roles.items() if "index" in r and c != tags[0]]
         if len(first) == 1:
             # an add-on follows a positive send, which leaves tag == step index (both obligations of R1): its arm is evaluated in that world,
             # so a test of the tag in the add-on arm (`if i_last == i: ...`) is decided by meaning
             arms[1] = run_arm(ctx, kind, cfg, "addon", carry={tags[0]: F.sym("carry:" + first[0])}, generic_prefix="carry:")
         arms = arms + [valid]
         roles = carried_roles(arms)
+        if not any("value" in r for r in roles.values()):
+            # the guard may let the cached value through for another step than j-1 (a wrong guard): look at the other worlds as well
+            for w_ in (J, J + 1, J - 2):
+                try:
+                    arms = arms + [run_arm(ctx, kind, cfg, "pos", carry={tags[0]: w_})]
+                except Unsupported:
+                    continue
+                roles = carried_roles(arms)
+                if any("value" in r for r in roles.values()):
+                    break
     index = [c for c, r in roles.items() if r == {"index"}]
     cache = [c for c, r in roles.items() if "value" in r and "index" not in r and "test" not in r]
     return index, tags, cache, roles, arms
@@ -400,6 +434,10 @@ def r1_carried_state(ctx):
             lp = arms[0].loop
             nconf += 1
             seen.add(id(lp))
+            und = [v for a_ in arms for v in _undecided(a_)]
+            if und:
+                ctx.error(f"{tag}: a value of the iteration depends on a test the configuration does not decide", lp, und[0].why)
+                continue
             first = id(lp) not in done_loops
             done_loops.add(id(lp))
             # necessary: nothing an earlier send left behind enters the values of this send unless it is checked against the step it belongs
@@ -411,7 +449,8 @@ def r1_carried_state(ctx):
             what = f"{tag}: the only state that survives from one send to the next is the step index" \
                 + (" plus one cached force and the step it was computed for" if want_cache else "")
             detail = {"carried": {k: sorted(v) for k, v in roles.items()}}
-            if len(index) == 1 and not mixed and ((not tags and not cache) or want_cache):
+            if len(index) == 1 and not mixed and (not cache or want_cache):
+                # (a tag that is tested while nothing cached ever enters a value is inert)
                 ctx.ok(what, lp, detail, nontrivial=first)
             elif unchecked:
                 ctx.fail(what, lp, dict(detail, enters_unchecked=unchecked,
@@ -438,17 +477,29 @@ def r1_carried_state(ctx):
             else:
                 ctx.ok(f"{tag}: with two or more time steps the first yield the body reaches is the receiving one (generator() primes the "
                        "body once; a yield before the loop would swallow the first send)", lp, nontrivial=first)
+            # a send that reads a name nothing has bound on its path dies with a NameError / UnboundLocalError (the engine follows the path
+            # the configuration takes, evaluates what Python evaluates, and knows every binding statement)
+            for a_, w_ in zip(arms[:2], ("positive", "add-on")):
+                if a_.crashes:
+                    msg, st_ = a_.crashes[0]
+                    ctx.fail(f"{tag}: a {w_} send reads no name before something is bound to it", st_ if st_ is not None else lp,
+                             {"crash": msg, "all": [m for m, _ in a_.crashes]})
+                else:
+                    ctx.ok(f"{tag}: a {w_} send reads no name before something is bound to it", lp, nontrivial=False)
             if len(index) != 1:
                 continue
             pos, addon = arms[0], arms[1]
             iv = index[0]
-            ok = pos.final(iv) is not None and not is_unknown(pos.final(iv)) and pos.final(iv).equals(J) and \
-                addon.final(iv) is not None and not is_unknown(addon.final(iv)) and addon.final(iv).equals(F.sym("carry:" + iv))
-            ctx.check(ok, f"{tag}: the step index is taken from the send by a positive send and kept by an add-on", lp,
-                      None if ok else {"positive": repr(pos.final(iv)), "add-on": repr(addon.final(iv))}, nontrivial=False)
+            if not _good(pos.final(iv)) or not _good(addon.final(iv)):
+                _not_lowered(ctx, f"{tag}: step index after a send not lowered", lp, {"positive": repr(pos.final(iv)), "add-on": repr(addon.final(iv))},
+                             pos.final(iv), addon.final(iv))
+            else:
+                ok = pos.final(iv).equals(J) and addon.final(iv).equals(F.sym("carry:" + iv))
+                ctx.check(ok, f"{tag}: the step index is taken from the send by a positive send and kept by an add-on", lp,
+                          None if ok else {"positive": repr(pos.final(iv)), "add-on": repr(addon.final(iv))}, nontrivial=False)
             if want_cache and len(tags) == 1 and len(cache) == 1:
                 _cached_damping_force(ctx, tag, cfg, tags[0], cache[0], arms)
-            elif kind == "cdf" and cfg["k"] and not tags and not cache:
+            elif kind == "cdf" and cfg["k"] and not cache:
                 # nothing is cached: the obligations on the cache hold vacuously (recorded so that the instance count says what was looked at)
                 for wname, _c, _g in _worlds("-", "-")[1:]:
                     ctx.ok(f"{tag} [{wname}]: no force is cached by an earlier send; the step is computed from column j-1", lp, nontrivial=False)
@@ -501,15 +552,22 @@ def _cached_damping_force(ctx, tag, cfg, tg, ch, arms):
                             "column j-1", lp, None if not used else {"depends on the stale cache": used,
                                                                      "consequence": "after send(1..5) then send(3, f') the force of step 5 enters step 3"})
     # bookkeeping of the tag
-    ok = pos.final(tg) is not None and not is_unknown(pos.final(tg)) and pos.final(tg).equals(J)
-    ctx.check(ok, f"{tag}: a positive send records which step the cache now belongs to", lp, None if ok else repr(pos.final(tg)))
-    ok = _eq(addon.final(tg), addon.lev.carry_over.get(tg, F.sym("carry:" + tg)))
-    ctx.check(ok, f"{tag}: an add-on leaves the tag of the cache alone", lp, None if ok else repr(addon.final(tg)), nontrivial=False)
+    if not _good(pos.final(tg)) or not _good(addon.final(tg)):
+        _not_lowered(ctx, f"{tag}: tag of the cache after a send not lowered", lp, {"positive": repr(pos.final(tg)), "add-on": repr(addon.final(tg))},
+                     pos.final(tg), addon.final(tg))
+    else:
+        ok = pos.final(tg).equals(J)
+        ctx.check(ok, f"{tag}: a positive send records which step the cache now belongs to", lp, None if ok else repr(pos.final(tg)))
+        ok = _eq(addon.final(tg), addon.lev.carry_over.get(tg, F.sym("carry:" + tg)))
+        ctx.check(ok, f"{tag}: an add-on leaves the tag of the cache alone", lp, None if ok else repr(addon.final(tg)), nontrivial=False)
     # an add-on that changes V[:, i] changes the cached force as well
     vch = addon.cell("v", "k") is not None
-    cch = addon.final(ch) is not None and not (not is_unknown(addon.final(ch)) and addon.final(ch).equals(F.sym("carry:" + ch)))
-    ctx.check(vch == cch, f"{tag}: an add-on force changes the cached damping force exactly when it changes V[:, i]", lp,
-              {"V changed": vch, "cache changed": cch})
+    if not _good(addon.final(ch)):
+        _not_lowered(ctx, f"{tag}: cached damping force after an add-on not lowered", lp, repr(addon.final(ch)), addon.final(ch))
+    else:
+        cch = not addon.final(ch).equals(F.sym("carry:" + ch))
+        ctx.check(vch == cch, f"{tag}: an add-on force changes the cached damping force exactly when it changes V[:, i]", lp,
+                  {"V changed": vch, "cache changed": cch})
 
 
 
@@ -521,8 +579,8 @@ BATCH = {
     "se2": (SE2, "SolveExp2.tsolve", "U"),
 }
 # the force history of the batch solver at the step being computed is what the generator is sent
-BATCH_REFNAME = {("force", "k", "prev"): "f0", ("force", "k", "cur"): "f1", ("force", "rb", "prev"): "f0rb", ("force", "rb", "cur"): "f1rb",
-                 ("force", "rf", "cur"): "f1rf"}
+BATCH_REFNAME = {("force", "k", "prev"): "@f0", ("force", "k", "cur"): "@f1", ("force", "rb", "prev"): "@f0rb", ("force", "rb", "cur"): "@f1rb",
+                 ("force", "rf", "cur"): "@f1rf"}
 
 
 def batch_namer(arr, rn, cn):
@@ -659,6 +717,20 @@ def _eq(a, b):
     return _good(a) and _good(b) and a.equals(b)
 
 
+def _judge(ctx, label, where, got, want, nontrivial=True, missing="no store into column i of that partition", names=("generator", "expected")):
+    """verdict of one value comparison.  got None: the store is absent (a violation); a value the engine could not lower: an analysis error
+    (a violation when the path provably crashes); otherwise the two values are compared"""
+    if got is None:
+        ctx.fail(label, where, missing)
+        return False
+    if not _good(got) or not _good(want):
+        _not_lowered(ctx, label + ": not lowered", where, {names[0]: repr(got), names[1]: repr(want)}, got, want)
+        return False
+    ok = got.equals(want)
+    ctx.check(ok, label, where, None if ok else {names[0]: repr(got), names[1]: repr(want)}, nontrivial=nontrivial)
+    return ok
+
+
 def _force_cell(arm):
     for rn in ("all", "k", "rf"):
         c = arm.cell("force", rn)
@@ -699,19 +771,17 @@ def _nothing_else(ctx, arm, allowed, what):
 def _rf_and_force(ctx, tag, arm, cfg):
     lp = arm.loop
     c = _force_cell(arm)
-    ok = c is not None and _eq(c["value"], F1ALL)
-    ctx.check(ok, f"{tag}: a positive send replaces the stored force of step i by the sent force", c["node"] if c else lp,
-              None if ok else (repr(c["value"]) if c else "no store into the force history"))
+    _judge(ctx, f"{tag}: a positive send replaces the stored force of step i by the sent force", c["node"] if c else lp,
+           c["value"] if c else None, F1ALL, missing="no store into the force history")
     if cfg.get("rf"):
         c = arm.cell("d", "rf")
-        ok = c is not None and _eq(c["value"], IKRF * F1RF)
-        ctx.check(ok, f"{tag}: residual-flexibility displacement of step i is the static solution K_rf^-1 F1[rf]", c["node"] if c else lp,
-                  None if ok else (repr(c["value"]) if c else "no store"))
+        _judge(ctx, f"{tag}: residual-flexibility displacement of step i is the static solution K_rf^-1 F1[rf]", c["node"] if c else lp,
+               c["value"] if c else None, IKRF * F1RF)
     allowed = {("d", "k"), ("v", "k"), ("d", "rf"), ("force", "all"), ("force", "k"), ("force", "rf"), ("d", "rb"), ("v", "rb"), ("a", "rb")}
     _nothing_else(ctx, arm, allowed, f"{tag}: a positive send writes column i of the solution and of the force history and nothing else")
 
 
-STATE_SYMS = {"d0", "v0", "f0", "f0rb", "drb0", "vrb0"}
+STATE_SYMS = {"@d0", "@v0", "@f0", "@f0rb", "@drb0", "@vrb0"}
 
 
 def batch_step(ctx, kind, cfg, derived=0, label=None):
@@ -728,8 +798,15 @@ def batch_step(ctx, kind, cfg, derived=0, label=None):
     if (kind, id(b)) in seen:
         return b
     seen.add((kind, id(b)))
+    if b.ev.facts.crashes:
+        msg, st_ = b.ev.facts.crashes[0]
+        ctx.fail(f"{tag}: the batch solver reads no name before something is bound to it", st_ if st_ is not None else b.fn, {"crash": msg})
     unv = b.unverified()
     stale = [c for c in unv if symname(c["hyp"]) in STATE_SYMS]
+    notlow = [c for c in unv if not _bgood(c["final"]) or not _bgood(c["hyp"])]
+    if notlow:
+        ctx.error(f"{tag}: a value the time loop carries is not lowered", notlow[0]["loop"], {c["name"]: repr(c["final"]) for c in notlow})
+        return None
     if stale:
         ctx.fail(f"{tag}: what the time loop carries into the next iteration is the column it has just stored", stale[0]["loop"],
                  {c["name"]: {"holds at the start of step i": repr(c["hyp"]), "after the body": repr(c["final"])} for c in stale})
@@ -761,7 +838,7 @@ def r2_step_equals_batch(ctx):
     if not all(_bgood(x) for o in (0, 1) for x in batch[o][:2]):
         ctx.error("_solve_real_unc: batch step not lowered", batch[0][2], {o: [repr(x) for x in batch[o][:2]] for o in (0, 1)})
     else:
-        ok = batch[1][0].subs({"f1": F0}).equals(batch[0][0]) and batch[1][1].subs({"f1": F0}).equals(batch[0][1])
+        ok = batch[1][0].subs({"@f1": F0}).equals(batch[0][0]) and batch[1][1].subs({"@f1": F0}).equals(batch[0][1])
         ctx.check(ok, "_solve_real_unc_inner_loop: order 0 is order 1 with the force held (f1 := f0)", batch[0][2])
     # generators: plain uncoupled
     for cfg in u_configs():
@@ -780,12 +857,10 @@ def r2_step_equals_batch(ctx):
             if not _bgood(b[0]) or not _bgood(b[1]):
                 ctx.error(f"{tag}: batch step not lowered", bs.where("d", "k"), {"d": repr(b[0]), "v": repr(b[1])})
                 continue
-            ok = _eq(d1, b[0])
-            ctx.check(ok, f"{tag}: a positive send stores the batch displacement step computed from column i-1, Force[:, i-1] and the sent force",
-                      (arm.cell("d", "k") or {}).get("node") or arm.loop, None if ok else {"generator": repr(d1), "batch": repr(b[0])})
-            ok = _eq(v1, b[1])
-            ctx.check(ok, f"{tag}: a positive send stores the batch velocity step", (arm.cell("v", "k") or {}).get("node") or arm.loop,
-                      None if ok else {"generator": repr(v1), "batch": repr(b[1])})
+            _judge(ctx, f"{tag}: a positive send stores the batch displacement step computed from column i-1, Force[:, i-1] and the sent force",
+                   (arm.cell("d", "k") or {}).get("node") or arm.loop, d1, b[0], names=("generator", "batch"))
+            _judge(ctx, f"{tag}: a positive send stores the batch velocity step", (arm.cell("v", "k") or {}).get("node") or arm.loop, v1, b[1],
+                   names=("generator", "batch"))
         _rf_and_force(ctx, tag, arm, cfg)
     # generators: coupled damping as force
     def cdf_batch(cfg, tag):
@@ -833,7 +908,7 @@ def r2_step_equals_batch(ctx):
         except Unsupported as e:
             ctx.error(f"{tag}: carried state", None, str(e))
             continue
-        if not tags and not cache:
+        if not cache:
             plan = [("no cache", None)]                  # the force of step i-1 is recomputed on every send
         elif len(tags) == 1 and len(cache) == 1:
             worlds = _worlds(tags[0], cache[0])
@@ -856,13 +931,21 @@ def r2_step_equals_batch(ctx):
                 continue
             evp = evp or w
             d1, v1 = _u(w.value("d", "k"), cfg), _u(w.value("v", "k"), cfg)
-            ok = _eq(d1, b[0]) and _eq(v1, b[1])
-            ctx.check(ok, f"{tag} [{arm_name}]: a positive send stores the batch step of the damping-as-force recurrence",
-                      (w.cell("d", "k") or {}).get("node") or w.loop,
-                      None if ok else {"generator d": repr(d1), "batch d": repr(b[0]), "generator v": repr(v1), "batch v": repr(b[1])})
+            lab = f"{tag} [{arm_name}]: a positive send stores the batch step of the damping-as-force recurrence"
+            if d1 is None or v1 is None:
+                ctx.fail(lab, w.loop, "no store into column i of the rb/el partition")
+            elif not _good(d1) or not _good(v1):
+                _not_lowered(ctx, lab + ": not lowered", w.loop, {"generator d": repr(d1), "generator v": repr(v1)}, d1, v1)
+            else:
+                ok = d1.equals(b[0]) and v1.equals(b[1])
+                ctx.check(ok, lab, (w.cell("d", "k") or {}).get("node") or w.loop,
+                          None if ok else {"generator d": repr(d1), "batch d": repr(b[0]), "generator v": repr(v1), "batch v": repr(b[1])})
             if world is None:
                 continue
             dn = _u(w.final(cache[0]), cfg)
+            if not _good(dn):
+                _not_lowered(ctx, f"{tag} [{arm_name}]: cached damping force after the send not lowered", w.loop, repr(dn), dn)
+                continue
             ok = _eq(dn, b[2])
             ctx.check(ok, f"{tag} [{arm_name}]: the damping force cached for the next step equals the batch loop's carried value", w.loop,
                       None if ok else {"generator": repr(dn), "batch": repr(b[2])})
@@ -881,12 +964,10 @@ def r2_step_equals_batch(ctx):
             mm = invm if cfg["m"] is not None else F.const(1)
             want = P * mm * F0 + (Q * mm * F1 if cfg["order"] == 1 else 0)
             d1, v1 = _u(arm.value("d", "k"), cfg), _u(arm.value("v", "k"), cfg)
-            okd = _eq(d1, F.sym("E_dd") * D0 + F.sym("E_dv") * V0 + ROWS_D * want)
-            ctx.check(okd, f"{tag}: d(i) = E_dd d + E_dv v + (P M^-1 f(i-1) {'+ Q M^-1 f(i)' if cfg['order'] == 1 else ''})[d half, rows ksize:] from column i-1",
-                      (arm.cell("d", "k") or {}).get("node") or arm.loop, None if okd else {"d": repr(d1)})
-            okv = _eq(v1, F.sym("E_vd") * D0 + F.sym("E_vv") * V0 + ROWS_V * want)
-            ctx.check(okv, f"{tag}: v(i) = E_vd d + E_vv v + (force integral)[v half, rows :ksize] from column i-1",
-                      (arm.cell("v", "k") or {}).get("node") or arm.loop, None if okv else {"v": repr(v1)})
+            _judge(ctx, f"{tag}: d(i) = E_dd d + E_dv v + (P M^-1 f(i-1) {'+ Q M^-1 f(i)' if cfg['order'] == 1 else ''})[d half, rows ksize:] from column i-1",
+                   (arm.cell("d", "k") or {}).get("node") or arm.loop, d1, F.sym("E_dd") * D0 + F.sym("E_dv") * V0 + ROWS_D * want)
+            _judge(ctx, f"{tag}: v(i) = E_vd d + E_vv v + (force integral)[v half, rows :ksize] from column i-1",
+                   (arm.cell("v", "k") or {}).get("node") or arm.loop, v1, F.sym("E_vd") * D0 + F.sym("E_vv") * V0 + ROWS_V * want)
         _rf_and_force(ctx, tag, arm, cfg)
     for order in (1, 0):
         for mass in (None, "unc", "coupled"):
@@ -915,6 +996,20 @@ def _inc(cell):
     if not _good(cell["cur"]):
         return None
     return cell["value"] - cell["cur"]
+
+
+def _judge_inc(ctx, label, where, cell, want, missing="no store into column i of that partition"):
+    """what a store adds to its target equals `want` (absent store: violation; value not lowered: analysis error)"""
+    if cell is None:
+        ctx.fail(label, where, missing)
+        return False
+    inc = _inc(cell)
+    if inc is None or not _good(want):
+        _not_lowered(ctx, label + ": not lowered", cell["node"], {"stored": repr(cell["value"]), "content before": repr(cell["cur"])}, cell["value"], cell["cur"], want)
+        return False
+    ok = inc.equals(want)
+    ctx.check(ok, label, cell["node"], None if ok else {"increment": repr(inc), "expected": repr(want)})
+    return ok
 
 
 def _pos_for_addon(ctx, kind, cfg):
@@ -956,30 +1051,25 @@ def r3_addon_linear_part(ctx):
                     if inc is None:
                         ctx.error(f"{tag}: add-on {label}", cell["node"], repr(cell["value"]))
                         continue
-                    lin = pv.diff("f1") * F1
+                    lin = pv.diff("@f1") * F1
                     ok = inc.equals(lin)
                     ctx.check(ok, f"{tag}: the add-on {label} increment is the f1-linear part of the positive-send update", cell["node"],
                               None if ok else {"increment": repr(inc), "d(update)/d f1 * F1": repr(lin)})
-            c = _force_cell(add)
-            inc = _inc(c)
-            ok = inc is not None and inc.equals(F1ALL)
-            ctx.check(ok, f"{tag}: an add-on accumulates into the stored force of step i", c["node"] if c else lp,
-                      None if ok else (repr(c["value"]) if c else "no store into the force history"))
+            _judge_inc(ctx, f"{tag}: an add-on accumulates into the stored force of step i", lp, _force_cell(add), F1ALL, missing="no store into the force history")
             if cfg.get("rf"):
-                c = add.cell("d", "rf")
-                inc = _inc(c)
-                ok = inc is not None and inc.equals(IKRF * F1RF)
-                ctx.check(ok, f"{tag}: the add-on rf displacement increment is K_rf^-1 F1[rf]", c["node"] if c else lp,
-                          None if ok else (repr(c["value"]) if c else "no store"))
+                _judge_inc(ctx, f"{tag}: the add-on rf displacement increment is K_rf^-1 F1[rf]", lp, add.cell("d", "rf"), IKRF * F1RF)
             allowed = {("d", "k"), ("v", "k"), ("d", "rf"), ("force", "all"), ("force", "k"), ("force", "rf")}
             _nothing_else(ctx, add, allowed, f"{tag}: an add-on touches nothing else")
             ivs = sorted(add.canon.index_vars)
             ctx.check(len(ivs) == 1, f"{tag}: every add-on store addresses the column of the step solved last", lp, ivs, nontrivial=False)
             if cache is not None and cfg["order"] == 1:
                 dn_pos, dn_add = _u(pos.final(cache), cfg), _u(add.final(cache), cfg)
-                ok = _good(dn_pos) and _good(dn_add) and (dn_add - F.sym("carry:" + cache)).equals(dn_pos.diff("f1") * F1)
-                ctx.check(ok, f"{tag}: the cached damping force receives the f1-linear part as well", lp,
-                          None if ok else {"add-on": repr(dn_add), "positive": repr(dn_pos)})
+                if not _good(dn_pos) or not _good(dn_add):
+                    _not_lowered(ctx, f"{tag}: cached damping force after an add-on not lowered", lp, {"add-on": repr(dn_add), "positive": repr(dn_pos)}, dn_pos, dn_add)
+                else:
+                    ok = (dn_add - F.sym("carry:" + cache)).equals(dn_pos.diff("@f1") * F1)
+                    ctx.check(ok, f"{tag}: the cached damping force receives the f1-linear part as well", lp,
+                              None if ok else {"add-on": repr(dn_add), "positive": repr(dn_pos)})
 
 
 # ---------------------------------------------------------------------------------------------------------------- complex-eigenvalue path
@@ -1025,26 +1115,22 @@ def r2c_complex_path(ctx):
         ok = _good(gv) and _bgood(bv) and gv.equals(bv)
         ctx.check(ok, f"_solve_complex_unc_generator ({tag}): rigid-body acceleration of step i is M_rb^-1 F1[rb] as in the batch solver", lp,
                   None if ok else {"generator": repr(gv), "batch": repr(bv)})
-        gv = g.value("d", "rf")
-        ok = _eq(gv, IKRF * F1RF)
-        ctx.check(ok, f"_solve_complex_unc_generator ({tag}): residual-flexibility displacement of step i is K_rf^-1 F1[rf]", lp,
-                  None if ok else repr(gv))
+        _judge(ctx, f"_solve_complex_unc_generator ({tag}): residual-flexibility displacement of step i is K_rf^-1 F1[rf]", lp, g.value("d", "rf"), IKRF * F1RF)
         a0 = [c for c in g.pre_cells if c["key"] == ("a", "rb", "0")]
         gv = g.value("a", "rb")
-        ok = len(a0) == 1 and _good(gv) and _eq(a0[0]["value"], gv.subs({"f1rb": refsym("f0p", "rb", "all")}))
+        ok = len(a0) == 1 and _good(gv) and _eq(a0[0]["value"], gv.subs({"@f1rb": refsym("f0p", "rb", "all")}))
         ctx.check(ok, f"_solve_complex_unc_generator ({tag}): the rigid-body acceleration of step 0 is M_rb^-1 F0[rb] (the batch value of column 0)",
                   a0[0]["node"] if a0 else lp, None if ok else [repr(c["value"]) for c in a0])
         c = _force_cell(g)
-        ok = c is not None and _eq(c["value"], F1ALL)
-        ctx.check(ok, f"_solve_complex_unc_generator ({tag}): a positive send replaces the stored force of step i by the sent force", lp,
-                  None if ok else (repr(c["value"]) if c else None), nontrivial=False)
+        _judge(ctx, f"_solve_complex_unc_generator ({tag}): a positive send replaces the stored force of step i by the sent force", lp,
+               c["value"] if c else None, F1ALL, nontrivial=False, missing="no store into the force history")
         if order == 0:
             try:
                 b1 = run_batch(ctx, "complex", dict(cfg, order=1))
             except Unsupported as e:
                 ctx.error(f"_solve_complex_unc ({tag}): first-order arm", bfn, str(e))
                 continue
-            hold = {"f1rb": F0RB, "f1": F0}
+            hold = {"@f1rb": F0RB, "@f1": F0}
             for what, gk in pairs:
                 v0_, v1_ = b.value(*gk), b1.value(*gk)
                 if not _bgood(v0_) or not _bgood(v1_):
@@ -1079,6 +1165,8 @@ def eval_f2x(ctx, rel, qual, cfg, velo, kind, sided=False):
     ev.run(fn.body)
     if facts.lost:
         raise Unsupported(f"{qual}: {facts.lost[0]}")
+    if facts.crashes:
+        return Unknown(facts.crashes[0][0]), fn          # the call dies: reported as a crash by _not_lowered
     if not ev.returns:
         if any(e[0] == "raise" for e in ev.events):
             return RAISES, fn
@@ -1093,7 +1181,7 @@ def r3c_complex_addon(ctx):
     """complex-eigenvalue generator: an add-on send (j < 0) adds to step i exactly the part of the positive-send update that is linear in the
     sent force (and nothing for a zero-order hold); _get_f2x_complex_unc uses the same coefficients (Be through the eigenvector recovery for
     the elastic modes, A/2 and Ap for the rigid-body modes)."""
-    zero = {k: F.const(0) for k in ("f0rb", "drb0", "vrb0", "d0", "v0", "f0")}
+    zero = {k: F.const(0) for k in ("@f0rb", "@drb0", "@vrb0", "@d0", "@v0", "@f0")}
     for cfg in cx_configs():
         order = cfg["order"]
         tag = f"order {order}, m {cfg['m'] or 'None'}, {'real' if cfg['real'] else 'complex'} system"
@@ -1125,17 +1213,12 @@ def r3c_complex_addon(ctx):
             ok = inc.equals(want)
             ctx.check(ok, f"_solve_complex_unc_generator ({tag}): an add-on send adds exactly the f1-linear part of the {what} update", lp,
                       None if ok else {"add-on increment": repr(inc), "d(update)/d f1 * F1": repr(want)})
-        inc, p_ = _inc(add.cell("a", "rb")), pos.value("a", "rb")
-        ok = inc is not None and _good(p_) and inc.equals(p_)
-        ctx.check(ok, f"_solve_complex_unc_generator ({tag}): an add-on send adds M_rb^-1 F1[rb] to the rigid-body acceleration", lp,
-                  None if ok else repr(inc))
-        inc = _inc(add.cell("d", "rf"))
-        ok = inc is not None and inc.equals(IKRF * F1RF)
-        ctx.check(ok, f"_solve_complex_unc_generator ({tag}): an add-on send adds K_rf^-1 F1[rf] to the residual-flexibility displacement", lp,
-                  None if ok else repr(inc))
-        inc = _inc(_force_cell(add))
-        ok = inc is not None and inc.equals(F1ALL)
-        ctx.check(ok, f"_solve_complex_unc_generator ({tag}): an add-on send accumulates into the stored force of step i", lp, None if ok else repr(inc))
+        _judge_inc(ctx, f"_solve_complex_unc_generator ({tag}): an add-on send adds M_rb^-1 F1[rb] to the rigid-body acceleration", lp, add.cell("a", "rb"),
+                   pos.value("a", "rb"))
+        _judge_inc(ctx, f"_solve_complex_unc_generator ({tag}): an add-on send adds K_rf^-1 F1[rf] to the residual-flexibility displacement", lp,
+                   add.cell("d", "rf"), IKRF * F1RF)
+        _judge_inc(ctx, f"_solve_complex_unc_generator ({tag}): an add-on send accumulates into the stored force of step i", lp, _force_cell(add), F1ALL,
+                   missing="no store into the force history")
     # get_f2x, complex path
     for mass, velo, rf in [(m_, v_, r_) for m_ in (None, "unc", "coupled") for v_ in (True, False) for r_ in (False, True)]:
         if True:
@@ -1152,11 +1235,11 @@ def r3c_complex_addon(ctx):
                 _not_lowered(ctx, f"_get_f2x_complex_unc ({tag}): not lowered", fn0, repr(got), got, el, rb, rfv)
                 continue
             # unit add-on force through phi^T: f1 -> phik^T, f1rb -> phir^T; response recovered with phik / phir
-            el = el.subs(zero).subs({"f1": F.fn("T", F.sym("phik"))})
-            rb = rb.subs(zero).subs({"f1rb": F.fn("T", F.sym("phir"))})
+            el = el.subs(zero).subs({"@f1": F.fn("T", F.sym("phik"))})
+            rb = rb.subs(zero).subs({"@f1rb": F.fn("T", F.sym("phir"))})
             want = F.sym("phik") * el + F.sym("phir") * rb
             if rf and not velo:
-                want = want + F.sym("phirf") * rfv.subs({"f1rf": F.fn("T", F.sym("phirf"))})
+                want = want + F.sym("phirf") * rfv.subs({"@f1rf": F.fn("T", F.sym("phirf"))})
             ok = got.equals(want)
             ctx.check(ok, f"_get_f2x_complex_unc ({tag}): flexibility = phi_k (d update/d f1) phi_k^T + phi_rb (d update/d f1) phi_rb^T of the "
                           "complex generator's first-order step", fn0, None if ok else {"got": repr(got), "want": repr(want)})
@@ -1189,9 +1272,9 @@ def r4_get_f2x(ctx):
                 if not _good(flex) or not _good(upd):
                     _not_lowered(ctx, tag, fn, f"{flex} {upd}", flex, upd)
                     continue
-                want = phik * upd.diff("f1") * phik
+                want = phik * upd.diff("@f1") * phik
                 if rf and not velo:
-                    want = want + phirf * need(pos.value("d", "rf")).diff("f1rf") * phirf
+                    want = want + phirf * need(pos.value("d", "rf")).diff("@f1rf") * phirf
                 ok = flex.equals(want)
                 ctx.check(ok, f"{tag}: flexibility = phi (d update / d f1) phi^T, the change a unit add-on force produces in the current step "
                               "(rf part: displacement only)", fn, None if ok else {"get_f2x": repr(flex), "from the generator": repr(want)})
@@ -1227,9 +1310,9 @@ def r4_get_f2x(ctx):
                 if not _good(flex) or inc is None:
                     _not_lowered(ctx, tag, fn, f"{flex} {inc}", flex)
                     continue
-                want = phik * inc.diff("f1") * F.fn("T", phik)
+                want = phik * inc.diff("@f1") * F.fn("T", phik)
                 if rf and not velo:
-                    want = want + phirf * need(_inc(add.cell("d", "rf"))).diff("f1rf") * F.fn("T", phirf)
+                    want = want + phirf * need(_inc(add.cell("d", "rf"))).diff("@f1rf") * F.fn("T", phirf)
                 ok = flex.equals(want)
                 ctx.check(ok, f"{tag}: flexibility = phi_k (Q M^-1)[{'v half' if velo else 'd half'}] phi_k^T (+ rf part for displacement): the same half of Q "
                               "and the same side of the mass inverse as the add-on arm of the generator", fn,
@@ -1757,13 +1840,13 @@ def _report_typing(ctx, qual, label, bad, checked):
 
 
 RULES = [
-    ("C08-R1", r1_carried_state, 130),
-    ("C08-R2", r2_step_equals_batch, 110),
-    ("C08-R2c", r2c_complex_path, 100),
-    ("C08-R3", r3_addon_linear_part, 120),
-    ("C08-R3c", r3c_complex_addon, 85),
-    ("C08-R4", r4_get_f2x, 20),
-    ("C08-R5", r5_typestate, 38),
+    ("C08-R1", r1_carried_state, 225),
+    ("C08-R2", r2_step_equals_batch, 140),
+    ("C08-R2c", r2c_complex_path, 130),
+    ("C08-R3", r3_addon_linear_part, 140),
+    ("C08-R3c", r3c_complex_addon, 90),
+    ("C08-R4", r4_get_f2x, 24),
+    ("C08-R5", r5_typestate, 44),
     ("C08-R6", r6_typing, 120),
     ("C08-R7", r7_constructor_state_is_read_only, 40),
 ]
@@ -1789,7 +1872,13 @@ MANIFEST = {
             "Not decided: bit-equality of differently associated sums, add-on before any positive send.",
     "note": "Trusted: CPython ast; verifier/e2_formula.py with matrix products abstracted to commutative products (a wrong coefficient or term is seen; a wrong "
             "multiplication order only where the side is tracked: lu_solve / transposes in SolveExp2.get_f2x versus the generator); lemma used: the cached "
-            "damping force, when its tag says step j-1, equals bo @ V[:, j-1]. The batch loop bodies are lowered with name/shape hooks (batch code only).",
+            "damping force, when its tag says step j-1, equals bo @ V[:, j-1]. The batch solvers are evaluated by the same engine for one generic time step "
+            "(verifier/c08_batch.py): whole-history slices are series, what a time loop carries is checked to be the column just stored, and the two "
+            "carried values for which that is not a syntactic identity (the batch damping force; the modal state y of the complex solver) are used "
+            "as lemmas with their own initial values as definitions. State kept across sends may live in locals, tuples, dicts, namespaces or small "
+            "record classes; helpers may be functions, methods, nested functions, lambdas, partials, getters, `yield from` sub-generators. Not "
+            "followed (exit 2): break / else on the receiving loop, nested receiving loops, yield in an except handler, match, in-place update of "
+            "carried state through an alias, helpers that store into array views but live outside the package.",
     "technique": "symbolic execution per configuration + def-use of loop-carried state + symbolic step formulas compared with the batch loop body + "
                  "differentiation for the add-on part + may-alias effect analysis",
 }
